@@ -312,6 +312,10 @@ def check_reader(ctx, spec):
             try:
                 old = refeval.evaluate(stmt, prev['storage'])
             except (refeval.Ambiguous, refeval.Undefined):
+                # no single denotation over that content: the answer that read itself got is one admissible result
+                if prev['stmt'] == rec['stmt'] and 'rows' in prev['obs'] and refeval.same_multiset([tuple(r) for r in prev['obs']['rows']], got):
+                    stale = prev
+                    break
                 continue
             if refeval.compare(old, got, directions_of(stmt)) is None:
                 stale = prev
